@@ -63,6 +63,16 @@ def vectors(ctx):
                 f = gen.with_parity(d, ov)
                 for fn in ("allcall.capability", "allcall.interrogator"):
                     V.append({"fn": fn, "frame": f, "code": [ca, ov]})
+    # the same overlays with the address CHOSEN so that the transmitted PI field is a boundary value (000000: the parity of the
+    # reply equals the interrogator code; FFFFFF) - the CRC is linear, the address is solved for (gen.solve_tail)
+    for ov in ovs:
+        for pi in (0, 0xFFFFFF):
+            d = gen.solve_tail([(11 << 3) | rng.randrange(8), 0, 0, 0], pi ^ ov)
+            if d is None:
+                continue
+            f = d + [pi >> 16, (pi >> 8) & 255, pi & 255]
+            for fn in ("allcall.capability", "allcall.interrogator"):
+                V.append({"fn": fn, "frame": f, "code": [d[0] & 7, ov]})
     # guards: every reply-specific decoder x every DF
     fns = ["common.idcode", "surv.identity", "adsb.emergency_squawk", "surv.fs", "surv.dr", "surv.um",
            "allcall.capability", "allcall.interrogator", "surv.altitude"]
